@@ -1,5 +1,6 @@
 """One executor for AdbDevice and AdbDeviceAsync against the simulator."""
 import asyncio
+import gc
 import random
 import threading
 
@@ -66,7 +67,12 @@ class Session(object):
     def dispose(self):
         if self.loop is not None:
             try:
+                # abandoned async generators are finalised by tasks the loop schedules when they are collected
+                gc.collect()
+                for _ in range(3):
+                    self.loop.run_until_complete(asyncio.sleep(0))
                 self.loop.run_until_complete(self.loop.shutdown_asyncgens())
+                self.loop.run_until_complete(asyncio.sleep(0))
             finally:
                 self.loop.close()
             self.loop = None
